@@ -819,6 +819,16 @@ def real_run(fn):
             facade.install()
 
 
+def _close(fa, fb, tol):
+    """concrete comparison of two floats: NaN equals NaN, an infinite value only equals itself (a relative tolerance
+    times infinity would accept anything), finite values within the relative tolerance"""
+    if fa != fa or fb != fb:
+        return fa != fa and fb != fb
+    if math.isinf(fa) or math.isinf(fb):
+        return fa == fb
+    return fa == fb or abs(fa - fb) <= tol * max(1.0, abs(fa), abs(fb))
+
+
 class Dual:
     """One scenario, two executions: symbolic (real code under the facade, conditions become SMT
     obligations) and concrete replay (unpatched code on the solver's values, conditions evaluated)."""
@@ -892,7 +902,7 @@ class Dual:
                 # both sides are concrete floats (the path computed them with real float arithmetic): compare like the
                 # concrete replay does, within the stated tolerance
                 fa, fb = float(a), float(b)
-                return (fa != fa and fb != fb) or abs(fa - fb) <= tol * max(1.0, abs(fa), abs(fb)) or fa == fb
+                return _close(fa, fb, tol)
             e = core.boolexpr(core.s_eq(a, b))
             if core.is_floatish(a) and core.is_floatish(b):
                 e = core.b_or(e, core.b_and(core.boolexpr(core.s_isnan(a)), core.boolexpr(core.s_isnan(b))))
@@ -901,7 +911,7 @@ class Dual:
             if a is None or b is None:
                 return a is None and b is None
             fa, fb = float(a), float(b)
-            return (fa != fa and fb != fb) or abs(fa - fb) <= tol * max(1.0, abs(fa), abs(fb)) or fa == fb
+            return _close(fa, fb, tol)
         except (TypeError, ValueError):
             return a == b
 
